@@ -6,7 +6,7 @@ cd "$(dirname "$0")"
 {
   echo "open Model"
   echo "let entries : (string * (n list -> n list)) list = ["
-  grep -o '^val entry_[a-zA-Z0-9_]*' gen/model.mli | sed 's/^val entry_\(.*\)$/  ("\1", entry_\1);/'
+  grep -E '^val entry_[a-zA-Z0-9_]+ : n list -> n list$' gen/model.mli | sed -E 's/^val entry_([a-zA-Z0-9_]+) .*$/  ("\1", entry_\1);/'
   echo "]"
 } > gen/entries.ml
 cd gen
